@@ -119,50 +119,50 @@ theorem parseCmd_enc (cmd : Cmd) (h : cmd.wf = true) (rest : Bytes) :
   cases cmd with
   | erase a l m =>
     simp [Cmd.wf, Cmd.inRange, isU32] at h
-    simp only [encCmd, baseHdr, words4, List.append_assoc, parseCmd, bind, Except.bind, Sb31Consts.cmdMagic, Sb31Consts.tagErase]
+    simp only [encCmd, baseHdr, words4, List.append_assoc, parseCmd, parseTail, bind, Except.bind, Sb31Consts.cmdMagic, Sb31Consts.tagErase]
     rw [takeU_u32 _ _ (by decide)]
     simp [check, takeU_u32, takeWordRes3_enc, h, pure, Except.pure]
   | load a d m =>
     simp [Cmd.wf, Cmd.inRange, isU32] at h
-    simp only [encCmd, loadLike_some, baseHdr, words4, List.append_assoc, parseCmd, bind, Except.bind, Sb31Consts.cmdMagic, Sb31Consts.tagLoad]
+    simp only [encCmd, loadLike_some, baseHdr, words4, List.append_assoc, parseCmd, parseTail, bind, Except.bind, Sb31Consts.cmdMagic, Sb31Consts.tagLoad]
     rw [takeU_u32 _ _ (by decide)]
     simp [check, takeU_u32, takeWordRes3_enc, takeData_enc, h, pure, Except.pure]
   | execute a =>
     simp [Cmd.wf, Cmd.inRange, isU32] at h
-    simp only [encCmd, baseHdr, List.append_assoc, parseCmd, bind, Except.bind, Sb31Consts.cmdMagic, Sb31Consts.tagExecute]
+    simp only [encCmd, baseHdr, List.append_assoc, parseCmd, parseTail, bind, Except.bind, Sb31Consts.cmdMagic, Sb31Consts.tagExecute]
     rw [takeU_u32 _ _ (by decide)]
     simp [check, takeU_u32, h, pure, Except.pure]
   | call a =>
     simp [Cmd.wf, Cmd.inRange, isU32] at h
-    simp only [encCmd, baseHdr, List.append_assoc, parseCmd, bind, Except.bind, Sb31Consts.cmdMagic, Sb31Consts.tagCall]
+    simp only [encCmd, baseHdr, List.append_assoc, parseCmd, parseTail, bind, Except.bind, Sb31Consts.cmdMagic, Sb31Consts.tagCall]
     rw [takeU_u32 _ _ (by decide)]
     simp [check, takeU_u32, h, pure, Except.pure]
   | progFuses a d =>
     simp [Cmd.wf, Cmd.inRange, isU32] at h
     have hlen : d.length / 4 < 4294967296 := by omega
     have h4 : 4 * (d.length / 4) = d.length := by omega
-    simp only [encCmd, loadLike_none, baseHdr, List.append_assoc, parseCmd, bind, Except.bind, Sb31Consts.cmdMagic,
+    simp only [encCmd, loadLike_none, baseHdr, List.append_assoc, parseCmd, parseTail, bind, Except.bind, Sb31Consts.cmdMagic,
       Sb31Consts.tagProgFuses, Sb31Consts.fuseWordSize]
     rw [takeU_u32 _ _ (by decide)]
     simp [check, takeU_u32, takeData_enc, h, hlen, h4, pure, Except.pure]
   | progIfr a d =>
     simp [Cmd.wf, Cmd.inRange, isU32] at h
-    simp only [encCmd, loadLike_none, baseHdr, List.append_assoc, parseCmd, bind, Except.bind, Sb31Consts.cmdMagic, Sb31Consts.tagProgIfr]
+    simp only [encCmd, loadLike_none, baseHdr, List.append_assoc, parseCmd, parseTail, bind, Except.bind, Sb31Consts.cmdMagic, Sb31Consts.tagProgIfr]
     rw [takeU_u32 _ _ (by decide)]
     simp [check, takeU_u32, takeData_enc, h, pure, Except.pure]
   | loadCmac a d m =>
     simp [Cmd.wf, Cmd.inRange, isU32] at h
-    simp only [encCmd, loadLike_some, baseHdr, words4, List.append_assoc, parseCmd, bind, Except.bind, Sb31Consts.cmdMagic, Sb31Consts.tagLoadCmac]
+    simp only [encCmd, loadLike_some, baseHdr, words4, List.append_assoc, parseCmd, parseTail, bind, Except.bind, Sb31Consts.cmdMagic, Sb31Consts.tagLoadCmac]
     rw [takeU_u32 _ _ (by decide)]
     simp [check, takeU_u32, takeWordRes3_enc, takeData_enc, h, pure, Except.pure]
   | copy a l dst mf mt =>
     simp [Cmd.wf, Cmd.inRange, isU32] at h
-    simp only [encCmd, baseHdr, words4, List.append_assoc, parseCmd, bind, Except.bind, Sb31Consts.cmdMagic, Sb31Consts.tagCopy]
+    simp only [encCmd, baseHdr, words4, List.append_assoc, parseCmd, parseTail, bind, Except.bind, Sb31Consts.cmdMagic, Sb31Consts.tagCopy]
     rw [takeU_u32 _ _ (by decide)]
     simp [check, takeU_u32, h, pure, Except.pure]
   | loadHashLocking a d m =>
     simp [Cmd.wf, Cmd.inRange, isU32] at h
-    simp only [encCmd, loadLike_some, baseHdr, words4, List.append_assoc, parseCmd, bind, Except.bind, Sb31Consts.cmdMagic,
+    simp only [encCmd, loadLike_some, baseHdr, words4, List.append_assoc, parseCmd, parseTail, bind, Except.bind, Sb31Consts.cmdMagic,
       Sb31Consts.tagLoadHashLocking, Sb31Consts.hashLockTail]
     rw [takeU_u32 _ _ (by decide)]
     simp [check, takeU_u32, takeWordRes3_enc, takeData_enc, takeB_append (zeros 64) rest 64 (by simp), allZero_zeros, h, pure, Except.pure]
@@ -172,28 +172,28 @@ theorem parseCmd_enc (cmd : Cmd) (h : cmd.wf = true) (rest : Bytes) :
     rw [show u32 Sb31Consts.cmdMagic ++ u16 off ++ u16 kw ++ u32 d.length ++ u32 Sb31Consts.tagLoadKeyBlob ++ d
           = (u32 Sb31Consts.cmdMagic ++ u16 off ++ u16 kw ++ u32 d.length ++ u32 Sb31Consts.tagLoadKeyBlob) ++ d from rfl,
         zeroPad16_prefix _ _ (by simp)]
-    simp only [List.append_assoc, parseCmd, bind, Except.bind, Sb31Consts.cmdMagic, Sb31Consts.tagLoadKeyBlob]
+    simp only [List.append_assoc, parseCmd, parseTail, bind, Except.bind, Sb31Consts.cmdMagic, Sb31Consts.tagLoadKeyBlob]
     rw [takeU_u32 _ _ (by decide)]
     have e1 : (off + 65536 * kw) % 65536 = off := by omega
     have e2 : (off + 65536 * kw) / 65536 = kw := by omega
     simp [check, takeU_u32, takeU_u16pair, takeData_enc, h, e1, e2, pure, Except.pure]
   | configureMemory a m =>
     simp [Cmd.wf, Cmd.inRange, isU32] at h
-    simp only [encCmd, baseHdr, List.append_assoc, parseCmd, bind, Except.bind, Sb31Consts.cmdMagic, Sb31Consts.tagConfigureMemory]
+    simp only [encCmd, baseHdr, List.append_assoc, parseCmd, parseTail, bind, Except.bind, Sb31Consts.cmdMagic, Sb31Consts.tagConfigureMemory]
     rw [takeU_u32 _ _ (by decide)]
     simp [check, takeU_u32, h, pure, Except.pure]
   | fillMemory a l p =>
     simp [Cmd.wf, Cmd.inRange, isU32] at h
-    simp only [encCmd, baseHdr, words4, List.append_assoc, parseCmd, bind, Except.bind, Sb31Consts.cmdMagic, Sb31Consts.tagFillMemory]
+    simp only [encCmd, baseHdr, words4, List.append_assoc, parseCmd, parseTail, bind, Except.bind, Sb31Consts.cmdMagic, Sb31Consts.tagFillMemory]
     rw [takeU_u32 _ _ (by decide)]
     simp [check, takeU_u32, takeWordRes3_enc, h, pure, Except.pure]
   | fwVersionCheck v cid =>
     simp [Cmd.wf, Cmd.inRange, isU32] at h
-    simp only [encCmd, baseHdr, List.append_assoc, parseCmd, bind, Except.bind, Sb31Consts.cmdMagic, Sb31Consts.tagFwVersionCheck]
+    simp only [encCmd, baseHdr, List.append_assoc, parseCmd, parseTail, bind, Except.bind, Sb31Consts.cmdMagic, Sb31Consts.tagFwVersionCheck]
     rw [takeU_u32 _ _ (by decide)]
     simp [check, takeU_u32, h, pure, Except.pure]
   | reset =>
-    simp only [encCmd, baseHdr, List.append_assoc, parseCmd, bind, Except.bind, Sb31Consts.cmdMagic, Sb31Consts.tagReset]
+    simp only [encCmd, baseHdr, List.append_assoc, parseCmd, parseTail, bind, Except.bind, Sb31Consts.cmdMagic, Sb31Consts.tagReset]
     rw [takeU_u32 _ _ (by decide)]
     simp [check, takeU_u32, pure, Except.pure]
 
@@ -976,5 +976,171 @@ theorem kdf_sep_rights {c : CryptoOps} (hc : CryptoLaws c) (key : Bytes) (n r₁
   by_cases e : kdfInput n r₁ blk keyBits 1 = kdfInput n r₂ blk keyBits 1
   · exact Or.inl (kdfInput_inj_rights n r₁ r₂ blk keyBits 1 h₁ h₂ e)
   · exact Or.inr (Break.cmacForgery key _ _ e (kdf_first_block hc key n n r₁ r₂ blk keyBits h))
+
+/-! ## progress of the command decoder (the only loop of the loader) -/
+
+theorem takeB_len {n : Nat} {b x r : Bytes} (h : takeB n b = .ok (x, r)) : r.length + n = b.length := by
+  have := takeB_ok h
+  have e := congrArg List.length this.1
+  simp only [List.length_append] at e; omega
+
+theorem takeU_len {n : Nat} {b r : Bytes} {v : Nat} (h : takeU n b = .ok (v, r)) : r.length + n = b.length := by
+  obtain ⟨x, e, l⟩ := takeU_ok' h
+  have e := congrArg List.length e
+  simp only [List.length_append] at e; omega
+
+theorem takeData_len {n : Nat} {b d r : Bytes} (h : takeData n b = .ok (d, r)) : r.length ≤ b.length := by
+  unfold takeData at h
+  simp only [bind_ok] at h
+  obtain ⟨⟨_, b1⟩, t1, ⟨_, b2⟩, t2, _, _, hp⟩ := h
+  dsimp only at t1 t2 hp
+  simp only [pure, Except.pure] at hp
+  injection hp with hp; injection hp with _ hb; subst hb
+  have := takeB_len t1; have := takeB_len t2; omega
+
+theorem takeWordRes3_len {b r : Bytes} {v : Nat} (h : takeWordRes3 b = .ok (v, r)) : r.length ≤ b.length := by
+  unfold takeWordRes3 at h
+  simp only [bind_ok] at h
+  obtain ⟨⟨_, b1⟩, t1, ⟨_, b2⟩, t2, _, _, hp⟩ := h
+  dsimp only at t1 t2 hp
+  simp only [pure, Except.pure] at hp
+  injection hp with hp; injection hp with _ hb; subst hb
+  have := takeU_len t1; have := takeB_len t2; omega
+
+
+section steps
+variable {cmd : Cmd} {rest b : Bytes}
+
+theorem step_U {n : Nat} {f : Nat × Bytes → R (Cmd × Bytes)} (h : (takeU n b >>= f) = .ok (cmd, rest))
+    (k : ∀ v b1, b1.length ≤ b.length → f (v, b1) = .ok (cmd, rest) → rest.length ≤ b1.length) : rest.length ≤ b.length := by
+  obtain ⟨⟨v, b1⟩, t, hf⟩ := bind_ok.mp h
+  have := takeU_len t
+  exact Nat.le_trans (k v b1 (by omega) hf) (by omega)
+
+theorem step_B {n : Nat} {f : Bytes × Bytes → R (Cmd × Bytes)} (h : (takeB n b >>= f) = .ok (cmd, rest))
+    (k : ∀ v b1, b1.length ≤ b.length → f (v, b1) = .ok (cmd, rest) → rest.length ≤ b1.length) : rest.length ≤ b.length := by
+  obtain ⟨⟨v, b1⟩, t, hf⟩ := bind_ok.mp h
+  have := takeB_len t
+  exact Nat.le_trans (k v b1 (by omega) hf) (by omega)
+
+theorem step_D {n : Nat} {f : Bytes × Bytes → R (Cmd × Bytes)} (h : (takeData n b >>= f) = .ok (cmd, rest))
+    (k : ∀ v b1, b1.length ≤ b.length → f (v, b1) = .ok (cmd, rest) → rest.length ≤ b1.length) : rest.length ≤ b.length := by
+  obtain ⟨⟨v, b1⟩, t, hf⟩ := bind_ok.mp h
+  have := takeData_len t
+  exact Nat.le_trans (k v b1 this hf) this
+
+theorem step_W {f : Nat × Bytes → R (Cmd × Bytes)} (h : (takeWordRes3 b >>= f) = .ok (cmd, rest))
+    (k : ∀ v b1, b1.length ≤ b.length → f (v, b1) = .ok (cmd, rest) → rest.length ≤ b1.length) : rest.length ≤ b.length := by
+  obtain ⟨⟨v, b1⟩, t, hf⟩ := bind_ok.mp h
+  have := takeWordRes3_len t
+  exact Nat.le_trans (k v b1 this hf) this
+
+theorem step_C {c : Bool} {e : RomErr} {f : Unit → R (Cmd × Bytes)} (h : (check c e >>= f) = .ok (cmd, rest))
+    (k : f () = .ok (cmd, rest) → rest.length ≤ b.length) : rest.length ≤ b.length := by
+  obtain ⟨_, _, hf⟩ := bind_ok.mp h
+  exact k hf
+
+theorem step_P {c : Cmd} (h : (pure (c, b) : R (Cmd × Bytes)) = .ok (cmd, rest)) : rest.length ≤ b.length := by
+  have h2 : (Except.ok (c, b) : R (Cmd × Bytes)) = .ok (cmd, rest) := h
+  injection h2 with h2; injection h2 with _ hb; rw [← hb]; exact Nat.le_refl _
+end steps
+
+theorem parseTail_len (tag w1 w2 : Nat) (b rest : Bytes) (cmd : Cmd) (h : parseTail tag w1 w2 b = .ok (cmd, rest)) :
+    rest.length ≤ b.length := by
+  unfold parseTail at h
+  by_cases h1 : (tag == 1) = true
+  · rw [if_pos h1] at h
+    exact step_W h (fun _ _ _ h => step_P h)
+  rw [if_neg h1] at h
+  by_cases h2 : (tag == 2) = true
+  · rw [if_pos h2] at h
+    exact step_W h (fun _ _ _ h => step_D h (fun _ _ _ h => step_P h))
+  rw [if_neg h2] at h
+  by_cases h3 : (tag == 3) = true
+  · rw [if_pos h3] at h
+    exact step_C h (fun h => step_P h)
+  rw [if_neg h3] at h
+  by_cases h4 : (tag == 4) = true
+  · rw [if_pos h4] at h
+    exact step_C h (fun h => step_P h)
+  rw [if_neg h4] at h
+  by_cases h5 : (tag == 5) = true
+  · rw [if_pos h5] at h
+    exact step_D h (fun _ _ _ h => step_P h)
+  rw [if_neg h5] at h
+  by_cases h6 : (tag == 6) = true
+  · rw [if_pos h6] at h
+    exact step_D h (fun _ _ _ h => step_P h)
+  rw [if_neg h6] at h
+  by_cases h7 : (tag == 7) = true
+  · rw [if_pos h7] at h
+    exact step_W h (fun _ _ _ h => step_D h (fun _ _ _ h => step_P h))
+  rw [if_neg h7] at h
+  by_cases h8 : (tag == 8) = true
+  · rw [if_pos h8] at h
+    exact step_U h (fun _ _ _ h => step_U h (fun _ _ _ h => step_U h (fun _ _ _ h => step_U h (fun _ _ _ h => step_C h (fun h => step_P h)))))
+  rw [if_neg h8] at h
+  by_cases h9 : (tag == 9) = true
+  · rw [if_pos h9] at h
+    exact step_W h (fun _ _ _ h => step_D h (fun _ _ _ h => step_B h (fun _ _ _ h => step_C h (fun h => step_P h))))
+  rw [if_neg h9] at h
+  by_cases h10 : (tag == 10) = true
+  · rw [if_pos h10] at h
+    exact step_D h (fun _ _ _ h => step_P h)
+  rw [if_neg h10] at h
+  by_cases h11 : (tag == 11) = true
+  · rw [if_pos h11] at h
+    exact step_P h
+  rw [if_neg h11] at h
+  by_cases h12 : (tag == 12) = true
+  · rw [if_pos h12] at h
+    exact step_W h (fun _ _ _ h => step_P h)
+  rw [if_neg h12] at h
+  by_cases h13 : (tag == 13) = true
+  · rw [if_pos h13] at h
+    exact step_P h
+  rw [if_neg h13] at h
+  by_cases h14 : (tag == 14) = true
+  · rw [if_pos h14] at h
+    exact step_C h (fun h => step_P h)
+  rw [if_neg h14] at h
+  cases h
+
+/-- PROGRESS: every command the decoder accepts consumes at least its 16-byte header; an unknown tag is refused -/
+theorem parseCmd_progress (b rest : Bytes) (cmd : Cmd) (h : parseCmd b = .ok (cmd, rest)) : rest.length + 16 ≤ b.length := by
+  unfold parseCmd at h
+  obtain ⟨⟨_, b1⟩, t1, h⟩ := bind_ok.mp h
+  obtain ⟨_, _, h⟩ := bind_ok.mp h
+  obtain ⟨⟨w1, b2⟩, t2, h⟩ := bind_ok.mp h
+  obtain ⟨⟨w2, b3⟩, t3, h⟩ := bind_ok.mp h
+  obtain ⟨⟨tag, b4⟩, t4, h⟩ := bind_ok.mp h
+  have l1 := takeU_len t1; have l2 := takeU_len t2; have l3 := takeU_len t3; have l4 := takeU_len t4
+  have := parseTail_len _ _ _ _ _ _ h
+  try dsimp only at l1 l2 l3 l4 this
+  omega
+
+/-- the fuel of the command-sequence decoder (one unit per command; the loader calls `parseCmds body.length body`) is never what
+    decides: with one unit per 16 remaining bytes, any additional fuel gives the same answer -/
+theorem parseCmds_fuel_suffices : ∀ (f k : Nat) (b : Bytes), b.length ≤ 16 * f → parseCmds (f + k) b = parseCmds f b := by
+  intro f
+  induction f with
+  | zero =>
+    intro k b hb
+    have : b = [] := List.eq_nil_of_length_eq_zero (by omega)
+    subst this
+    cases k <;> simp [parseCmds]
+  | succ f ih =>
+    intro k b hb
+    rw [show f + 1 + k = (f + k) + 1 by omega]
+    unfold parseCmds
+    split
+    · rfl
+    · cases hp : parseCmd b with
+      | error e => rfl
+      | ok v =>
+        obtain ⟨cmd, rest⟩ := v
+        have hprog := parseCmd_progress b rest cmd hp
+        simp only [bind, Except.bind]
+        rw [ih k rest (by omega)]
 
 end SpsdkVerif.Sb31
